@@ -62,6 +62,7 @@ type c02Cluster struct {
 	watches map[string]int             // watch key -> number of watches opened so far
 	stores  map[string]map[string]bool // watch key -> shared informers (factories) seen for it
 	nsInfs  int                        // namespace informers started in this case
+	stale   map[string]bool            // ids of varying informers whose namespace has stopped matching since
 }
 
 func c02NsRank(s string) int {
@@ -90,7 +91,7 @@ func c02KindRank(s string) int {
 }
 
 func newC02Cluster(idx int) *c02Cluster {
-	cl := &c02Cluster{objs: map[c02Key]c02Val{}, nss: map[int]int{}, watches: map[string]int{}, stores: map[string]map[string]bool{}}
+	cl := &c02Cluster{objs: map[c02Key]c02Val{}, nss: map[int]int{}, watches: map[string]int{}, stores: map[string]map[string]bool{}, stale: map[string]bool{}}
 	cl.group = fmt.Sprintf("c%d.verif.test", idx)
 	cl.fc = fake.NewFakeCluster(fake.ClusterVersionV121)
 	for _, k := range c02Kinds {
@@ -763,6 +764,15 @@ func (cl *c02Cluster) waitWatches(mon kem.Monitor, s c02MonSpec, wantVaryingNs [
 		ok := true
 		seen := map[string]bool{}
 		for _, inf := range kem.VerifC02Describe(mon) {
+			cl.mu.Lock()
+			isStale := cl.stale[inf.ID]
+			cl.mu.Unlock()
+			if isStale {
+				// an informer of a namespace incarnation that has ended: the namespace callback has
+				// not removed it yet, so the monitor has not caught up with the namespace events
+				ok = false
+				continue
+			}
 			if inf.Varying {
 				seen[inf.Namespace] = true
 			}
